@@ -200,10 +200,19 @@ def gen_spec(rng, fam, d, ard):
         s["rad"] = [u(rng, 0.5, 2.0) for _ in range(nl)]
         s["ang"] = [u(rng, 0.15, 0.85) for _ in range(nl)]
         s["l"] = ls(1.0, 4.0)
+        # constructor option delta_func (which coordinates are ACTIVE at a point; default: all).  Drawn away from the
+        # default in 2 of 3 kernels: coordinate i is active iff x_j >= t (or x_j < t) for a reference coordinate j
+        # (j == i, or another coordinate: the conditional-parameter use the kernel is made for) - thresholds inside
+        # the range of the generated points, so that a coordinate is active in some rows and inactive in others
+        if rng.random() < 0.67:
+            s["delta"] = [(["always"] if rng.random() < 0.25 else
+                           ["cond", rng.randrange(d), rng.randint(-8, 8) / 8.0, rng.random() < 0.5]) for _ in range(d)]
+            if all(c[0] == "always" for c in s["delta"]):
+                s["delta"][rng.randrange(d)] = ["cond", rng.randrange(d), rng.randint(-8, 8) / 8.0, True]
     elif fam == "cyl":
         s["w"] = [u(rng, 0.2, 1.5) for _ in range(rng.randint(1, 4))]
         s["alpha"] = u(rng, 0.5, 2.0); s["beta"] = u(rng, 0.5, 2.0)
-        s["eps"] = rng.choice([1e-6, 0.0]); s["base"] = rng.choice(["matern25", "rbf", "matern05"])
+        s["eps"] = rng.choice([1e-6, 0.0, 2.0 ** -10]); s["base"] = rng.choice(["matern25", "rbf", "matern05"])
         s["l"] = [u(rng, 0.3, 1.5)]
     elif fam == "hamming":
         s["alpha"] = u(rng, 0.3, 3.0); s["beta"] = u(rng, 0.3, 2.5); s["vocab"] = rng.randint(2, 3)
@@ -221,6 +230,9 @@ def gen_spec(rng, fam, d, ard):
         s["sub"] = [gen_spec(rng, b, d, bool(ard) and b in HAS_ARD)]
         if fam == "ng":
             s["os"] = [u(rng, 0.2, 1.5) for _ in range(rng.randint(1, d))]
+            s["maxdeg_default"] = rng.random() < 0.3      # constructor default max_degree=None (= num_dims)
+            if s["maxdeg_default"]:
+                s["os"] = [u(rng, 0.2, 1.5) for _ in range(d)]
     elif fam == "sumint":
         # gpytorch.utils.sum_interaction_terms on the stack of d one-dimensional base covariances: documented as the
         # sum over degrees 1..max_degree of the elementary symmetric polynomials of the base covariances
@@ -234,7 +246,118 @@ def gen_spec(rng, fam, d, ard):
         s["sub"] = [gen_spec(rng, b, len(s["dims"]), bool(ard))]
     else:
         raise ValueError(fam)
+    gen_constraints(rng, s)
     return s
+
+
+# Every `<parameter>_constraint` constructor option: (family test, keyword, key of the parameter values in the spec).
+# The documented formulas are stated in terms of the parameter VALUE, whatever the constraint that keeps it in range; the
+# driver reads the value back from the module after setting it, so a non-default constraint must not change anything.
+CONSTRAINT_OPTS = [
+    (lambda f: f in ("rbf", "matern05", "matern15", "matern25", "rbfgrad", "m52grad", "rbfgg", "rq", "periodic", "sdelta",
+                     "arc", "gskl", "gskl_div") or f.startswith("pp"), "lengthscale_constraint", "l"),
+    (lambda f: f in ("rq", "cyl", "hamming"), "alpha_constraint", "alpha"),
+    (lambda f: f in ("cyl", "hamming"), "beta_constraint", "beta"),
+    (lambda f: f in ("periodic", "cosine"), "period_length_constraint", "p"),
+    (lambda f: f == "linear", "variance_constraint", "v"),
+    (lambda f: f in ("poly", "polygrad"), "offset_constraint", "c"),
+    (lambda f: f == "const", "constant_constraint", "c"),
+    (lambda f: f == "scale", "outputscale_constraint", "s"),
+    (lambda f: f == "cyl", "angular_weights_constraint", "w"),
+    (lambda f: f == "sm", "mixture_weights_constraint", "w"),
+    (lambda f: f == "sm", "mixture_means_constraint", "mu"),
+    (lambda f: f == "sm", "mixture_scales_constraint", "sc"),
+    (lambda f: f == "sdelta", "Z_constraint", "z"),
+]
+LENGTH_CONSTRAINTS = ("lengthscale_constraint", "period_length_constraint")
+
+
+def _flat(v):
+    if isinstance(v, (list, tuple)):
+        return [w for x in v for w in _flat(x)]
+    return [float(v)]
+
+
+def gen_constraints(rng, s):
+    """non-default `*_constraint` options for about a third of the kernels: Interval(lo, hi) / GreaterThan(lo) /
+    LessThan(hi) / Positive() with the drawn parameter values strictly inside"""
+    con = {}
+    for test, kw, key in CONSTRAINT_OPTS:
+        if not test(s["fam"]) or key not in s or rng.random() > 0.35:
+            continue
+        vals = _flat(s[key])
+        lo, hi = min(vals) * u(rng, 0.2, 0.9), max(vals) * u(rng, 1.2, 4.0)
+        kind = rng.choice(["interval", "interval", "greater", "less", "positive"])
+        con[kw] = {"interval": [lo, hi], "greater": [lo, None], "less": [None, hi], "positive": [None, None]}[kind]
+    if con:
+        s["con"] = con
+
+
+def con_kwargs(spec):
+    from gpytorch import constraints as GC
+    out = {}
+    for kw, (lo, hi) in spec.get("con", {}).items():
+        if lo is None and hi is None:
+            out[kw] = GC.Positive()
+        elif hi is None:
+            out[kw] = GC.GreaterThan(lo)
+        elif lo is None:
+            out[kw] = GC.LessThan(hi)
+        else:
+            out[kw] = GC.Interval(lo, hi)
+    return out
+
+
+def arc_mask_row(delta, row):
+    """value of the ArcKernel delta_func described by `delta` at one point: 1.0 = active, 0.0 = inactive"""
+    if not delta:
+        return [1.0] * len(row)
+    return [1.0 if c[0] == "always" or ((row[c[1]] >= c[2]) == bool(c[3])) else 0.0 for c in delta]
+
+
+def arc_delta_func(delta):
+    """the callable handed to ArcKernel(delta_func=...): x (... x n x d) -> mask of the same shape"""
+    def f(x):
+        cols = []
+        for c in delta:
+            if c[0] == "always":
+                cols.append(torch.ones_like(x[..., 0]))
+            else:
+                ge = x[..., c[1]] >= c[2]
+                cols.append((ge if c[3] else ~ge).to(x.dtype))
+        return torch.stack(cols, dim=-1)
+    return f
+
+
+def options_used(spec):
+    """names of the constructor options this kernel (or a part of it) sets away from the default"""
+    o = set(spec.get("con", {}))
+    if spec.get("delta"):
+        o.add("delta_func")
+    if spec.get("maxdeg_default"):
+        o.add("max_degree=None")
+    for t in spec.get("sub", []):
+        o |= options_used(t)
+    return o
+
+
+def model_rows(spec, rows):
+    """the rows as the model takes them: an ArcKernel point is its coordinates followed by the values of the kernel's
+    delta_func at that point (Models/C05_kernels.v, KArc)"""
+    if spec["fam"] == "arc":
+        return [list(r) + arc_mask_row(spec.get("delta"), r) for r in rows]
+    return rows
+
+
+def same_point(spec, a, b):
+    """do the two rows coincide as far as the kernel is concerned (r = 0 exactly)?  For an ArcKernel also rows that
+    differ only in coordinates that are inactive in both"""
+    if a == b:
+        return True
+    if spec["fam"] == "arc" and spec.get("delta"):
+        ma, mb = arc_mask_row(spec["delta"], a), arc_mask_row(spec["delta"], b)
+        return all((p == q == 0.0) or (p == q == 1.0 and x == y) for p, q, x, y in zip(ma, mb, a, b))
+    return False
 
 
 # ---- composition with the PUBLIC operators.  A tree node is one of
@@ -349,42 +472,43 @@ def build(spec, **kw):
     ard = d if spec["ard"] else None
     T = torch.tensor
     akw = {"ard_num_dims": ard} if ard else {}
+    ckw = con_kwargs(spec)
     if f in ("rbf", "rbfgrad", "rbfgg"):
         cls = {"rbf": K.RBFKernel, "rbfgrad": K.RBFKernelGrad, "rbfgg": K.RBFKernelGradGrad}[f]
-        m = cls(**akw, **kw); m.lengthscale = T(spec["l"])
+        m = cls(**akw, **ckw, **kw); m.lengthscale = T(spec["l"])
         con = {"rbf": "KRBF", "rbfgrad": "JRBFGrad", "rbfgg": "JRBFGG"}[f]
         return m, "(%s %s)" % (con, qv(m.lengthscale))
     if f.startswith("matern") or f == "m52grad":
         if f == "m52grad":
-            m = K.Matern52KernelGrad(**akw); m.lengthscale = T(spec["l"])
+            m = K.Matern52KernelGrad(**akw, **ckw); m.lengthscale = T(spec["l"])
             return m, "(JM52Grad %s)" % qv(m.lengthscale)
         nu2 = {"05": 1, "15": 3, "25": 5}[f[-2:]]
-        m = K.MaternKernel(nu=nu2 / 2.0, **akw, **kw); m.lengthscale = T(spec["l"])
+        m = K.MaternKernel(nu=nu2 / 2.0, **akw, **ckw, **kw); m.lengthscale = T(spec["l"])
         return m, "(KMatern %d%%nat %s)" % (nu2, qv(m.lengthscale))
     if f == "rq":
-        m = K.RQKernel(**akw, **kw); m.lengthscale = T(spec["l"]); m.alpha = spec["alpha"]
+        m = K.RQKernel(**akw, **ckw, **kw); m.lengthscale = T(spec["l"]); m.alpha = spec["alpha"]
         return m, "(KRQ %s %s)" % (q1(m.alpha), qv(m.lengthscale))
     if f == "periodic":
-        m = K.PeriodicKernel(**akw, **kw); m.lengthscale = T(spec["l"]); m.period_length = T(spec["p"])
+        m = K.PeriodicKernel(**akw, **ckw, **kw); m.lengthscale = T(spec["l"]); m.period_length = T(spec["p"])
         return m, "(KPeriodic %s %s)" % (qv(m.period_length), qv(m.lengthscale))
     if f == "cosine":
-        m = K.CosineKernel(); m.period_length = spec["p"]
+        m = K.CosineKernel(**ckw); m.period_length = spec["p"]
         return m, "(KCosine %s)" % q1(m.period_length)
     if f == "linear":
-        m = K.LinearKernel(**akw, **kw); m.variance = T(spec["v"])
+        m = K.LinearKernel(**akw, **ckw, **kw); m.variance = T(spec["v"])
         return m, "(KLinear %s)" % qv(m.variance)
     if f in ("poly", "polygrad"):
-        m = (K.PolynomialKernel if f == "poly" else K.PolynomialKernelGrad)(power=spec["pw"]); m.offset = spec["c"]
+        m = (K.PolynomialKernel if f == "poly" else K.PolynomialKernelGrad)(power=spec["pw"], **ckw); m.offset = spec["c"]
         return m, "(%s %s %d%%nat)" % ("KPoly" if f == "poly" else "JPolyGrad", q1(m.offset), spec["pw"])
     if f.startswith("pp"):
-        m = K.PiecewisePolynomialKernel(q=spec["q"], **akw); m.lengthscale = T(spec["l"])
+        m = K.PiecewisePolynomialKernel(q=spec["q"], **akw, **ckw); m.lengthscale = T(spec["l"])
         return m, "(KPP %d%%nat %s)" % (spec["q"], qv(m.lengthscale))
     if f == "const":
-        m = K.ConstantKernel(); m.constant = T(spec["c"])
+        m = K.ConstantKernel(**ckw); m.constant = T(spec["c"])
         return m, "(KConst %s)" % q1(m.constant)
     if f == "scale":
         b, bt = build(spec["sub"][0])
-        m = K.ScaleKernel(b); m.outputscale = spec["s"]
+        m = K.ScaleKernel(b, **ckw); m.outputscale = spec["s"]
         return m, "(KScale %s %s)" % (q1(m.outputscale), bt)
     if f in ("sum", "prod"):
         parts = [build(s) for s in spec["sub"]]
@@ -395,39 +519,40 @@ def build(spec, **kw):
         return m, t
     if f == "sm":
         nq = len(spec["w"])
-        m = K.SpectralMixtureKernel(num_mixtures=nq, ard_num_dims=d)
+        m = K.SpectralMixtureKernel(num_mixtures=nq, ard_num_dims=d, **ckw)
         m.mixture_weights = T(spec["w"]); m.mixture_means = T(spec["mu"]).unsqueeze(-2)
         m.mixture_scales = T(spec["sc"]).unsqueeze(-2)
         return m, "(KSM %s %s %s)" % (qv(m.mixture_weights), qm(m.mixture_means.detach().reshape(nq, d).tolist()),
                                       qm(m.mixture_scales.detach().reshape(nq, d).tolist()))
     if f == "sdelta":
         nz = len(spec["z"])
-        m = K.SpectralDeltaKernel(num_dims=d, num_deltas=nz, **akw)
+        m = K.SpectralDeltaKernel(num_dims=d, num_deltas=nz, **akw, **ckw)
         m.Z = T(spec["z"]); m.lengthscale = T(spec["l"])
         return m, "(KSDelta %s %s)" % (qm(m.Z.detach().reshape(nz, d).tolist()), qv(m.lengthscale))
     if f == "arc":
         b, _ = build(dict(fam=spec["base"], d=1, ard=False, l=[1.0]))
-        m = K.ArcKernel(b, **akw)
+        m = K.ArcKernel(b, **akw, **ckw, **({"delta_func": arc_delta_func(spec["delta"])} if spec.get("delta") else {}))
         m.radius = T(spec["rad"]); m.angle = T(spec["ang"]); m.lengthscale = T(spec["l"])
         _, bt = build_term_only(b, spec["base"])
         return m, "(KArc %s %s %s %s)" % (bt, qv(m.radius), qv(m.angle), qv(m.lengthscale))
     if f == "cyl":
         b, _ = build(dict(fam=spec["base"], d=1, ard=False, l=spec["l"]))
-        m = K.CylindricalKernel(num_angular_weights=len(spec["w"]), radial_base_kernel=b, eps=spec["eps"])
+        m = K.CylindricalKernel(num_angular_weights=len(spec["w"]), radial_base_kernel=b, eps=spec["eps"], **ckw)
         m.angular_weights = T(spec["w"]); m.alpha = spec["alpha"]; m.beta = spec["beta"]
         _, bt = build_term_only(b, spec["base"])
         return m, "(KCyl %s %s %s %s %s)" % (qv(m.angular_weights), q1(m.alpha), q1(m.beta), C.qc_lit(spec["eps"]), bt)
     if f == "hamming":
-        m = K.HammingIMQKernel(vocab_size=spec["vocab"]); m.alpha = spec["alpha"]; m.beta = spec["beta"]
+        m = K.HammingIMQKernel(vocab_size=spec["vocab"], **ckw); m.alpha = spec["alpha"]; m.beta = spec["beta"]
         return m, "(KHamming %s %s %d%%nat)" % (q1(m.alpha), q1(m.beta), spec["vocab"])
     if f in ("gskl", "gskl_div"):
-        m = K.GaussianSymmetrizedKLKernel(); m.lengthscale = T(spec["l"])
+        m = K.GaussianSymmetrizedKLKernel(**ckw); m.lengthscale = T(spec["l"])
         mul = gskl_doc_form() if f == "gskl" else False
         return m, "(KGSKL %s %s %s)" % ("true" if mul else "false", q1(m.lengthscale), C.qc_lit(1e-8))
     if f in ("addstruct", "prodstruct", "ng"):
         b, bt = build(spec["sub"][0])
         if f == "ng":
-            m = K.NewtonGirardAdditiveKernel(b, num_dims=d, max_degree=len(spec["os"])); m.outputscale = T(spec["os"])
+            m = K.NewtonGirardAdditiveKernel(b, num_dims=d, **({} if spec.get("maxdeg_default") else {"max_degree": len(spec["os"])}))
+            m.outputscale = T(spec["os"])
             return m, "(KNG %s %s)" % (qv(m.outputscale), bt)
         m = (K.AdditiveStructureKernel if f == "addstruct" else K.ProductStructureKernel)(b, num_dims=d)
         return m, "(%s %s)" % ("KAddStruct" if f == "addstruct" else "KProdStruct", bt)
@@ -541,6 +666,9 @@ def scale_spec(spec, S):
         s["l"] = [v * S for v in s["l"]]
     if "p" in s:
         s["p"] = [v * S for v in s["p"]] if isinstance(s["p"], list) else s["p"] * S
+    if "con" in s:
+        s["con"] = {kw: ([None if b is None else b * S for b in bd] if kw in LENGTH_CONSTRAINTS else bd)
+                    for kw, bd in s["con"].items()}
     if "sub" in s:
         s["sub"] = [scale_spec(t, S) for t in s["sub"]]
     if "tree" in s:
@@ -742,7 +870,7 @@ def coq_case(term, spec, xa, xb):
         term = "(JO %s)" % term
     elif spec["fam"] not in MULTI:
         term = "(JK %s)" % term
-    return "(%s, %s, %s)" % (term, qm(xa), qm(xb))
+    return "(%s, %s, %s)" % (term, qm(model_rows(spec, xa)), qm(model_rows(spec, xb)))
 
 
 def decode(res, rows, cols):
@@ -758,7 +886,7 @@ def variant(spec):
         return "%s:pw=%d" % (f, spec["pw"])
     if f in ("scale", "addstruct", "prodstruct", "ng", "active", "arc", "cyl", "sumint"):
         sub = spec["sub"][0]["fam"] if "sub" in spec else spec["base"]
-        return "%s(%s)" % (f, sub)
+        return "%s(%s)%s" % (f, sub, ":delta_func" if spec.get("delta") else "")
     if f.startswith("pp"):
         return "pp:q=%d" % spec["q"]
     if f == "compose":
@@ -840,7 +968,7 @@ def compare(out, spec, case, call, ctx, got, model, tolmat=None):
     def atol(I, J):
         if tolmat is not None:
             return ATOL + KB * tolmat[I][J]
-        if loose and xa[I // p] == xb[J // p]:
+        if loose and same_point(spec, xa[I // p], xb[J // p]):
             # the r-dependent leaves are each off by up to ATOL_COINCIDENT_R; inside a product that is multiplied by the
             # magnitude of the other factors (e.g. a polynomial kernel of size 100)
             return ATOL_COINCIDENT_R * max(1.0, sens_mag(tree, xa[I // p], xb[J // p])[0])
@@ -990,6 +1118,13 @@ def check_one(out, spec, case, kern, models, calls=CALLS, ctxs=None, record=True
                          label="fam=" + spec["fam"])
                 out.count("call=" + call); out.count("ctx=" + ctx); out.count("d=%d" % spec["d"])
                 out.count("geom=" + case.get("geom", "origin"))
+                if call == "full" and ctx == ctxs[0]:
+                    for opt in sorted(options_used(spec)):
+                        out.count("option=" + opt)
+                    if spec["fam"] == "arc" and spec.get("delta"):
+                        ms = [arc_mask_row(spec["delta"], r) for r in case["x1"] + case["x2"]]
+                        if any(a[i] != b[i] for a in ms for b in ms for i in range(len(a))):
+                            out.count("arc:pair-active-in-one-point-only")
             try:
                 got = impl_eval(kern, case, call, ctx)
             except Exception as e:
